@@ -24,6 +24,12 @@ func init() {
 	evals["decompress"] = evalDecompress
 	evals["sigasn1"] = evalSigasn1
 	evals["cipherasn1"] = evalCipherasn1
+	// the same Go results, compared with the byte-level Lean models (Model.SM2Codec)
+	evals["compressm"] = evalCompress
+	evals["decompressm"] = evalDecompress
+	evals["cipherasn1m"] = evalCipherasn1
+	evals["kexhat"] = evalKexhat
+	evals["cipherunasn1m"] = evalCipherUnasn1
 	evals["pkcs8"] = evalPkcs8
 	evals["pubpem"] = evalPubpem
 	evals["loader"] = evalLoader
@@ -282,6 +288,9 @@ func genC14(r *rng, tier string, emit func(string)) {
 		emit("hexpriv " + bhex(k.d))
 		emit(fmt.Sprintf("hexpub %s %s", bhex(k.x), bhex(k.y)))
 		emit(fmt.Sprintf("compress %s %s", bhex(k.x), bhex(k.y)))
+		emit(fmt.Sprintf("compressm %s %s", bhex(k.x), bhex(k.y)))
+		emit("kexhat " + bhex(k.x))
+		emit("kexhat " + hx(r.bytes(r.pick([]int{0, 1, 15, 16, 17, 31, 32, 33, 40}))))
 		emit(fmt.Sprintf("pubpem %s %s", bhex(k.x), bhex(k.y)))
 		// signature and ciphertext ASN.1 forms with short / high-bit values
 		rr, ss := new(big.Int).SetBytes(r.bytes(32)), new(big.Int).SetBytes(r.bytes(32))
@@ -315,6 +324,15 @@ func genC14(r *rng, tier string, emit func(string)) {
 		ct = append(ct, r.bytes(32)...)
 		ct = append(ct, r.bytes(r.intn(200))...)
 		emit("cipherasn1 " + hx(ct))
+		emit("cipherasn1m " + hx(ct))
+		if der, err := sm2.CipherMarshal(ct); err == nil {
+			emit("cipherunasn1m " + hx(der))
+			m := append([]byte{}, der...)
+			m[r.intn(len(m))] ^= byte(1 << uint(r.intn(8)))
+			emit("cipherunasn1m " + hx(m))
+			emit("cipherunasn1m " + hx(der[:r.intn(len(der))]))
+			emit("cipherunasn1m " + hx(append(append([]byte{}, der...), r.bytes(1+r.intn(3))...)))
+		}
 		// PKCS#8 PEM with and without password; wrong passwords differing in one character, case, length
 		pw := pwds[i%len(pwds)]
 		wrong := pwds[(i+1+r.intn(len(pwds)-1))%len(pwds)]
@@ -358,6 +376,35 @@ func genC14(r *rng, tier string, emit func(string)) {
 			copy(c[1:], bytes.Repeat([]byte{0xff}, 32)) // x >= p
 		}
 		emit("decompress " + hx(c))
+		emit("decompressm " + hx(c))
 	}
 	_ = strings.Join
+}
+
+// kexhat <x hex> : keXHat(x) as minimal big-endian bytes
+func evalKexhat(args []string) string {
+	if len(args) != 1 {
+		return "bad-op"
+	}
+	b, ok := unhx(args[0])
+	if !ok {
+		return "bad-op"
+	}
+	return hx(sm2.VerifKeXHat(new(big.Int).SetBytes(b)).Bytes())
+}
+
+// cipherunasn1m <der> : CipherUnmarshal, raw ciphertext or err
+func evalCipherUnasn1(args []string) string {
+	if len(args) != 1 {
+		return "bad-op"
+	}
+	b, ok := unhx(args[0])
+	if !ok {
+		return "bad-op"
+	}
+	back, err := sm2.CipherUnmarshal(b)
+	if err != nil {
+		return "err"
+	}
+	return hx(back)
 }
